@@ -133,6 +133,12 @@ impl Property for C16 {
         let mut xot = Xot::new();
         let mut hs = vec![];
         let mut doc = doc;
+        if src.ratio(1, 4) {
+            // API-only layout: no-namespace elements below a default namespace without xmlns=""
+            // (the serializer writes one on the fly: strings, tokens and events must still agree)
+            gen::strip_undeclarations(&mut doc, src);
+            ctx.label("stripped_undeclarations");
+        }
         let root = match bridge::build(&mut xot, &doc, &mut hs) {
             Ok(r) => r,
             Err(e) => return Verdict::Fail(format!("harness: {}", e)),
